@@ -23,6 +23,7 @@ import Simfile.Model.Source
 import Simfile.Model.Convert
 import Simfile.Model.Views
 import Simfile.Model.Edit
+import Simfile.Model.EditSSC
 import Simfile.Model.Dir
 import Simfile.Model.Path
 import Simfile.Model.Tree
@@ -205,6 +206,36 @@ def getSMEdit (j : Json) : R SMEdit := do
   | [t, x, y, z] =>
     match (← t.getStr?) with
     | "field" => pure (.setField (← getNat x) (← getStr y) (← getStr z))
+    | s => throw s!"bad edit {s}"
+  | [t] =>
+    match (← t.getStr?) with
+    | "reverse" => pure .reverseCharts
+    | "clear" => pure .clearCharts
+    | s => throw s!"bad edit {s}"
+  | _ => throw "bad edit"
+
+def getSSCEdit (j : Json) : R SSCEdit := do
+  let a := (← j.getArr?).toList
+  match a with
+  | [t, x] =>
+    match (← t.getStr?) with
+    | "delkey" => pure (.delKey (← getStr x))
+    | "delattr" => pure (.delAttr (← getStr x))
+    | "append" => pure (.appendChart (← getSSCChart x))
+    | "pop" => pure (.popChart (← getNat x))
+    | s => throw s!"bad edit {s}"
+  | [t, x, y] =>
+    match (← t.getStr?) with
+    | "setkey" => pure (.setKey (← getStr x) (← getOptStr y))
+    | "setattr" => pure (.setAttr (← getStr x) (← getStr y))
+    | "insert" => pure (.insertChart (← getNat x) (← getSSCChart y))
+    | "set" => pure (.setChart (← getNat x) (← getSSCChart y))
+    | "cdel" => pure (.chartDelKey (← getNat x) (← getStr y))
+    | s => throw s!"bad edit {s}"
+  | [t, x, y, z] =>
+    match (← t.getStr?) with
+    | "cset" => pure (.chartSetKey (← getNat x) (← getStr y) (← getOptStr z))
+    | "cattr" => pure (.chartSetAttr (← getNat x) (← getStr y) (← getStr z))
     | s => throw s!"bad edit {s}"
   | [t] =>
     match (← t.getStr?) with
@@ -462,6 +493,7 @@ def handle (j : Json) : R Json := do
   | "obj.load_ssc_chart" => pure (jExcept jObjErr jSSCChart (loadSSCChart (← getArr getParam (← field j "params"))))
   | "obj.sm_chart_from_str" => pure (jExcept jObjErr jSMChart (smChartFromStr (← getStr (← field j "s"))))
   | "obj.sm_chart_from_msd" => pure (jExcept jObjErr jSMChart (smChartFromMsd (← getArr getStr (← field j "values"))))
+  | "edit.apply_ssc" => pure (jSSC (applyEditsSSC (← getSSC (← field j "sf")) (← getArr getSSCEdit (← field j "edits"))))
   | "edit.apply" => pure (jSM (applyEdits (← getSM (← field j "sf")) (← getArr getSMEdit (← field j "edits"))))
   | "obj.notes_last" => pure (jSSC (← getSSC (← field j "sf")).notesLast)
   | "source.use_chart" => pure (jExcept jSErr jBool (useChart (← getSrc (← field j "sim")) (← getOptSrc (fieldD j "chart" Json.null))))
